@@ -483,6 +483,56 @@ def check_preselect_equiv(ctx, t, T, F, dsl, csl, via='direct', cw=1.0, centre=1
     ctx.count('preselect_equiv:via_' + via)
 
 
+def check_concat(ctx, t, T1, T2, F, csl, dsl):
+    """katdal.open of a LIST of RDB files: channel preselection = channel selection of the concatenated data set; a dump
+    preselection is either refused or equal to the dump selection of the concatenated data set."""
+    x1 = build(t, T1, F, ctx.seed + 11, cw=4.0, centre=1284.0)
+    t2 = dict(t, sync=t['sync'] + 4096.0)
+    x2 = None
+    case = dict(concat=True, timing=timing_case(t), T1=T1, T2=T2, F=F, csl=list(csl), dsl=list(dsl))
+    try:
+        x2 = v4.build_v4(T=T2, F=F, seed=ctx.seed + 12, cbid='1234567990', sync_time=t2['sync'],
+                         first_timestamp=t['first'], int_time=t['int_time'], bandwidth=F * 4.0, center_freq=1284.0,
+                         cbf=None if t['cbf'] is None else (t['cbf'], 64, 1712e6),
+                         sub_pool_resources=('cbf_dev_2,sdp_1,m000,m001' if t['cmc2'] else 'cbf_1,sdp_1,m000,m001'),
+                         sub_product=('c856M4k' if t['cbf4k'] else 'c856M1k'))
+        files = [write_rdb(x1), write_rdb(x2)]
+        try:
+            full = katdal.open(files, time_offset=t['off'])
+            pre = katdal.open(files, time_offset=t['off'], preselect=dict(channels=slice(*csl)))
+            full.select(channels=slice(*csl))
+            o1 = dict(timestamps=np.asarray(pre.timestamps), freqs=np.asarray(pre.freqs), vis=pre.vis[:],
+                      flags=pre.flags[:], weights=pre.weights[:], shape=np.asarray(pre.shape))
+            o2 = dict(timestamps=np.asarray(full.timestamps), freqs=np.asarray(full.freqs), vis=full.vis[:],
+                      flags=full.flags[:], weights=full.weights[:], shape=np.asarray(full.shape))
+            try:
+                dpre = katdal.open(files, time_offset=t['off'], preselect=dict(dumps=slice(*dsl)))
+                full.select(dumps=slice(*dsl))
+                dts = (np.asarray(dpre.timestamps), np.asarray(full.timestamps))
+            except IndexError:
+                dts = None
+        except Exception as e:
+            ctx.disagree('what=exception;stream=concat;exc=%s' % type(e).__name__, case, repr(e)[:300], None,
+                         'opening / selecting a concatenated data set raised on an in-domain input')
+            return
+    finally:
+        v4.cleanup(x1)
+        if x2 is not None:
+            v4.cleanup(x2)
+    for nm in o1:
+        if not np.array_equal(o1[nm], o2[nm]):
+            ctx.disagree('what=concat_preselect_equiv;observable=%s' % nm, case, np.asarray(o1[nm]).ravel()[:4].tolist(),
+                         None, 'channel preselection of a concatenated data set differs from selecting the channels: ' + nm,
+                         spec=np.asarray(o2[nm]).ravel()[:4].tolist())
+    if dts is not None and not np.array_equal(dts[0], dts[1]):
+        ctx.disagree('what=concat_preselect_dumps_accepted', case, dts[0][:4].tolist(), None,
+                     'a dump preselection of a concatenated data set was accepted and differs from selecting the dumps',
+                     spec=dts[1][:4].tolist())
+    ctx.traces_validated += 1
+    ctx.note_case(('concat', repr(sorted(t.items())), T1, T2, F, tuple(csl), tuple(dsl)), sample=None)
+    ctx.count('concat')
+
+
 # ---------------------------------------------------------------------------- preselect validation
 
 FORMS = [dict(dumps=slice(0, 2)), dict(channels=slice(1, 3)), dict(dumps=slice(0, 4, 1)), dict(dumps=slice(0, 4, 2)),
@@ -578,12 +628,20 @@ def run(ctx):
         via = 'open' if rng.random() < 0.25 else 'direct'
         check_preselect_equiv(ctx, t, T, F, dsl, csl, via=via, cw=rng.choice([1.0, 0.5, 4.0, 208984.375]),
                               centre=rng.choice(CENTRES))
+    for _ in range(ctx.scale(4, 40)):
+        t = gen_timing(rng)
+        T1, T2, F = rng.randint(1, 4), rng.randint(1, 4), rng.choice([3, 4, 5, 8])
+        c = rng.randint(0, F - 1)
+        a = rng.randint(0, T1 + T2 - 1)
+        check_concat(ctx, t, T1, T2, F, (c, rng.randint(c + 1, F)), (a, rng.randint(a + 1, T1 + T2)))
     check_preselect_validation(ctx)
 
 
 def replay(ctx, doc):
     case = doc['case']
-    if 'dsl' in case or 'dumps' in case:
+    if case.get('concat'):
+        check_concat(ctx, case['timing'], case['T1'], case['T2'], case['F'], case['csl'], case['dsl'])
+    elif 'dsl' in case or 'dumps' in case:
         if 'dumps' in case:       # replay files written before the slices became part of the case
             case = dict(case, dsl=case['dumps'], csl=case['channels'])
         check_preselect_equiv(ctx, case['timing'], case['T'], case['F'], case['dsl'], case['csl'],
